@@ -143,7 +143,7 @@ def _lambert(r0, r1, duration, mu, prograde=True):
     for n in range(nmax):
         ratio = _F(nr0, nr1, A, z, duration, mu) / _dF(nr0, nr1, A, z)
         z -= ratio
-        if abs(ratio) > tol:
+        if abs(ratio) < tol:
             break
     else:  # pragma: no cover
         log.warning("Max iteration exceeded")
